@@ -46,8 +46,39 @@ def run(prop, tier):
             for line in g:
                 f.write(line)
         res, events = _validate(out, trace, "xpsstv", timeout=t["timeout"])
+        # parse sessions: the outcome of parsing a text must not depend on what the same thread parsed before
+        psr = os.path.join(wd, "ps.replay")
+        psmc = C.run_tlc("MC_ParseSession", "MC_ParseSession_%s.cfg" % tier, "psmc", to_file=psr, workers=4,
+                         timeout=900, keep_tags=["REPLAY"])
+        C.tlc_must_pass(psmc, "MC_ParseSession")
+        out.add_tlc(psmc)
+        pst = os.path.join(wd, "ps.trace")
+        so = C.run_harness(["ps-run", "--in", psr, "--out", pst, "--repeat", "2" if tier == "quick" else "3"])
+        pstats = json.loads(so.strip().splitlines()[-1])
+        cfgname = "Trace_ParseSession.%d.cfg" % os.getpid()
+        cfgp = os.path.join(C.SPEC, cfgname)
+        C.write_cfg(cfgp, ["SPECIFICATION TSpec", "CONSTANT Texts = {1, 2, 3, 4, 5, 6}", "CONSTANT MaxLen = 4",
+                           "CONSTANT Open = %s" % C.tla_set(out.open.keys()), "POSTCONDITION Done", "CHECK_DEADLOCK FALSE"])
+        try:
+            r2 = C.run_tlc("Trace_ParseSession", cfgname, "pstv", env={"TRACE": pst}, workers=1, deque=True, timeout=900)
+        finally:
+            os.unlink(cfgp)
+        C.tlc_must_pass(r2, "Trace_ParseSession")
+        if r2.distinct != C.count_lines(pst):
+            raise C.ToolError("parse-session validation visited %d states for %d lines" % (r2.distinct, C.count_lines(pst)))
+        ps_events = None
+        for tg, v in r2.lines:
+            if tg == "TRUNCATED":
+                raise C.ToolError("parse-session validation truncated")
+            if tg == "VERDICT":
+                if ps_events is None:
+                    ps_events = C.read_ndjson(pst)
+                ev = ps_events[v["i"] - 1]
+                out.verdict(v, {"event": "session", "texts": ev["texts"], "ok": [o["ok"] for o in ev["outcomes"]]})
+        out.extra["parse_sessions"] = pstats["sessions"]
+        out.extra["parses_in_sessions"] = pstats["parses"]
         rq = sum(len(e.get("qs", [])) for e in events if e.get("fam") != "mc")
-        out.traces = stats["sessions"] + t["rnd"]
+        out.traces = stats["sessions"] + t["rnd"] + pstats["sessions"]
         out.evaluations = 2 * stats["queries"] + 2 * sum(len(e.get("qs", [])) for e in C.read_ndjson(rnd))
         out.nontrivial_count = stats["sessions"] + t["rnd"]
         for s in stats["samples"]:
@@ -65,6 +96,9 @@ def run(prop, tier):
             "random sessions: length 2-12 over 10 queries per random document (<= 30 nodes)",
             "the stacks of Context are private: their observable image is get_position()/get_size() (the tops)",
             "the value of position()/last() at the top level of a query on an empty context is 0 (Context::default())",
+            "parse sessions (ParseSession.tla): every series of 3 (thorough 4) texts out of 6 (well-formed, nested 128 and 140 "
+            "deep, ill-formed, duplicate entity declarations used in a default, entities and defaults), each series in one "
+            "thread, 2-3 times; outcome (accepted? serialization) compared with the text's outcome in a fresh thread",
         ]
         xp._summary(out)
         return out.finish()
